@@ -2112,3 +2112,40 @@ def low_slice_switch(rep, rule, fi, subject_text):
             "address outside every window that agrees with a window's addresses in the low K bits selects that window (strobes and read "
             "data for an unassigned address)", line=n.lineno)
     return True
+
+
+def setter_bypass(rep, rule, idx):
+    """A property with a setter puts its validation and its side effects (type checks, geometry checks, freeze()) in that setter.  Code
+    outside the class that stores to the private backing field of *another* object (`self.bus._memory_map = m`, `src._event_map = m`)
+    skips all of it."""
+    import ast as _ast
+    backing = {}                                        # field -> (class qual, property name)
+    for cls in idx.all_classes():
+        for name, fs in cls.methods.items():
+            for f in fs:
+                if f.is_setter if hasattr(f, "is_setter") else any(d.endswith(".setter") for d in f.decorators):
+                    for st in _ast.walk(f.node):
+                        if isinstance(st, _ast.Assign):
+                            for t in st.targets:
+                                if isinstance(t, _ast.Attribute) and isinstance(t.value, _ast.Name) and t.value.id == "self" and t.attr.startswith("_"):
+                                    backing[t.attr] = (cls, name)
+    n = 0
+    for f in idx.all_functions():
+        for st in _ast.walk(f.node):
+            if not isinstance(st, _ast.Assign):
+                continue
+            for t in st.targets:
+                if isinstance(t, _ast.Attribute) and t.attr in backing:
+                    cls, prop = backing[t.attr]
+                    own = isinstance(t.value, _ast.Name) and t.value.id == "self" and f.cls is not None and \
+                        (f.cls is cls or cls in idx.bases_of(f.cls) or f.cls in idx.bases_of(cls))
+                    if own or (isinstance(t.value, _ast.Name) and t.value.id == "self" and f.cls is not None and f.cls.method(prop) is not None):
+                        continue
+                    if isinstance(st.value, _ast.Constant) and st.value.value is None:
+                        continue
+                    n += 1
+                    rep.bad(rule, f.site, f"`{_ast.unparse(t)[:50]}` is set through the `{prop}` setter of {cls.qual}",
+                            f"`{_ast.unparse(st)[:70]}` stores to the private field behind the property `{prop}` of another object: the setter's "
+                            "checks and side effects (type / geometry validation, freeze()) do not run", line=st.lineno)
+    rep.ok(rule, "-", "no function writes the private field behind another object's property setter",
+           f"{len(backing)} backing field(s) of properties with setters: {sorted(backing)[:6]}", nontrivial=False)
